@@ -108,6 +108,11 @@ def apply_fault(spec, cols):
     elif k == "worker":
         cols["ra"] = cols["ra"].copy()
         cols["ra"][fault_row(spec)] = MARKER_RA_DEG
+    elif k == "unequal" and spec["source"] == "hdf5":
+        # independent datasets: each column gets a length of its own (harness and driver agree on every entry)
+        for col, d in unequal_deltas(spec).items():
+            if col in cols:
+                cols[col] = resized(cols[col], spec["n"] + d)
     return cols
 
 
@@ -118,6 +123,43 @@ def used_columns(spec):
     if spec["redshifts"]:
         names.append("z")
     return names
+
+
+def file_columns(spec):
+    """the columns a columnar source holds for this case, in the order the reader selects them (ATTR_ORDER)"""
+    return used_columns(spec) + (["pid"] if spec["patch"] == "name" else [])
+
+
+def unequal_deltas(spec):
+    """fault kind 'unequal': by how many entries each column differs.  source hdf5: the length of the whole dataset
+    relative to the n entries of the right ascension (spec['n'] is always len(ra)); source frame: the length of the
+    column's slice in chunk fault['chunk'] relative to the other slices of that chunk.  {column: +d longer | -d shorter}"""
+    f = spec["fault"]
+    assert f["kind"] == "unequal", f
+    return {k: int(v) for k, v in (f.get("deltas") or {f["col"]: -1}).items()}
+
+
+def resized(values, length):
+    """the column with `length` entries: cut off, or continued with its own values from the start"""
+    import numpy as np
+    return np.resize(values, max(0, int(length)))
+
+
+def column_lengths(spec):
+    """source hdf5, fault kind 'unequal': the lengths of the datasets, right ascension first"""
+    d = unequal_deltas(spec)
+    assert d.get("ra", 0) == 0, spec
+    return [max(0, spec["n"] + d.get(c, 0)) for c in file_columns(spec)]
+
+
+def chunk_slice_lengths(spec):
+    """source frame, fault kind 'unequal': the lengths of the column slices DataChunk.create gets to see, chunk by chunk"""
+    d = unequal_deltas(spec)
+    n, cs, out = spec["n"], spec["cs"], []
+    for c in range(-(-n // cs)):
+        m = min(cs, n - c * cs)
+        out.append([max(0, m + (d.get(col, 0) if c == spec["fault"]["chunk"] else 0)) for col in file_columns(spec)])
+    return out
 
 
 def expected_records(spec, cols):
@@ -213,7 +255,8 @@ def foreign_records(npatch=2):
 
 class FrameDouble:
     """Minimal stand-in for a data frame (len, row slicing, column access with .to_numpy()) whose
-    columns may have unequal length inside one chunk: column `col` is one row short in chunk `chunk`."""
+    columns may have unequal length inside one chunk: in chunk `chunk` the slice of every column of `deltas` is
+    that many rows longer (continued with its own values) or shorter than the slices of the other columns."""
 
     class _Col:
         def __init__(self, a):
@@ -222,8 +265,8 @@ class FrameDouble:
         def to_numpy(self):
             return self.a
 
-    def __init__(self, cols, cs, chunk=None, col=None):
-        self.cols, self.cs, self.chunk, self.col = cols, cs, chunk, col
+    def __init__(self, cols, cs, chunk=None, deltas=None):
+        self.cols, self.cs, self.chunk, self.deltas = cols, cs, chunk, dict(deltas or {})
         self.n = len(cols["ra"])
 
     def __len__(self):
@@ -235,8 +278,8 @@ class FrameDouble:
             out = {}
             for k, v in self.cols.items():
                 part = v[key]
-                if self.chunk is not None and k == self.col and start // self.cs == self.chunk:
-                    part = part[:-1]
+                if self.chunk is not None and k in self.deltas and start // self.cs == self.chunk:
+                    part = resized(part, len(part) + self.deltas[k])
                 out[k] = part
             return FrameDouble._View(out)
         raise KeyError(key)
@@ -571,15 +614,14 @@ def create(spec, yaw):
     if spec["source"] == "df":
         return yaw.Catalog.from_dataframe(spec["cache"], pd.DataFrame(use), **kw)
     if spec["source"] == "frame":
-        fd = FrameDouble(use, spec["cs"], f["chunk"] if f["kind"] == "unequal" else None, f.get("col"))
+        fd = FrameDouble(use, spec["cs"], f["chunk"] if f["kind"] == "unequal" else None,
+                         unequal_deltas(spec) if f["kind"] == "unequal" else None)
         return yaw.Catalog.from_dataframe(spec["cache"], fd, **kw)
     if spec["source"] == "hdf5":
         import h5py
         path = spec["cache"] + ".src.hdf5"
         with h5py.File(path, "w") as h:
-            for k, v in use.items():
-                if f["kind"] == "unequal" and k == f["col"]:
-                    v = v[:-1]
+            for k, v in use.items():      # fault kind 'unequal': apply_fault gave every dataset its own length
                 h.create_dataset(k, data=v)
         try:
             return yaw.Catalog.from_file(spec["cache"], path, **kw)
